@@ -537,9 +537,9 @@ def contact_scene(rng, sA, sB, n, gap):
     return translated(sB, off)
 
 
-def gen_pair_general(rng):
+def gen_pair_general(rng, tA=None, tB=None, force_edge=False):
     """(sA, sB, info) – general stream"""
-    tA, tB = rng.choice(TYPES), rng.choice(TYPES)
+    tA, tB = tA or rng.choice(TYPES), tB or rng.choice(TYPES)
     cA = np.array([rng.uniform(-1, 1) for _ in range(3)]) * (10 ** rng.uniform(-1, 2.9) if rng.random() < 0.6 else 0.0)
     sA = gen_shape(rng, tA, center=cA)
     sB = gen_shape(rng, tB)
@@ -552,7 +552,7 @@ def gen_pair_general(rng):
     mode = rng.choice(["contact", "contact", "gap", "gap", "overlap", "deep", "random", "far", "veryfar"])
     info = {"mode": mode}
     n = _unit(np.array([rng.gauss(0, 1) for _ in range(3)]))
-    if "R" in sA and rng.random() < 0.3:
+    if "R" in sA and (force_edge or rng.random() < 0.3):
         # approach direction perpendicular to one local axis of A: for a box / cylinder / mesh the closest feature of
         # A is then an EDGE (or a rim generator), not a vertex — the final simplex is a nearly collinear triple
         RA = np.array(sA["R"], dtype=float).reshape(3, 3)
@@ -1373,6 +1373,14 @@ def gen_scenes(ctx, n_general, n_lattice):
     for _ in range(n_general):
         a, b, i = gen_pair_general(ctx.rng)
         sc.append((a, b, i, "G"))
+    # curved shape next to an EDGE of a polytope (closest feature = edge: nearly collinear final triple), both orders
+    polys = [t for t in TYPES if t in ("box", "mesh", "hull")] or TYPES
+    curved = [t for t in TYPES if t in ("sphere", "capsule", "ellipsoid", "cylinder")] or TYPES
+    for k in range(max(20, n_general // 6)):
+        a, b, i = gen_pair_general(ctx.rng, tA=ctx.rng.choice(polys), tB=ctx.rng.choice(curved), force_edge=True)
+        if "R" not in a:
+            continue
+        sc.append(((a, b, i, "G")) if k % 2 == 0 else ((b, a, dict(i, swapped=True), "G")))
     return sc
 
 
